@@ -1,1 +1,329 @@
-"""(job kinds registered here)"""
+"""Differential jobs: same generated SOURCE TEXT under tawazi and under plain callables (C01, C10, C17, C20)."""
+from __future__ import annotations
+
+import asyncio
+import json
+import os
+import random
+import tempfile
+import zlib
+from collections import Counter
+
+from . import bootstrap as B
+from . import diffgen as G
+from . import probes
+from .jobs import REGISTRY, Collector, job
+from .spec import jsonable
+from .sym import Sym, same, short
+
+
+class Built:
+    pass
+
+
+def build_ref(prog, plain, strip_flags=False, sites=None, prefix=""):
+    """Plain-Python environment. `sites` collects per-call-site activity: full node id -> dict."""
+    env = {"and_": lambda a, b: a and b, "or_": lambda a, b: a or b, "not_": lambda a: not a}
+    lids = G.local_ids(prog)
+    for st in prog["stmts"]:
+        if st["op"] == "call":
+            fs = prog["fns"][st["fn"]]
+            fn = plain[st["fn"]]
+            nid = prefix + lids[st["site"]]
+
+            def mk(fn=fn, nid=nid, unp=fs["unpack_to"], flagged=st["active"] is not None):
+                def site(*a, twz_active=True, twz_tag=None, twz_unpack_to=None, **k):
+                    if sites is not None:
+                        sites.setdefault(nid, dict(flagged=flagged, calls=0, active=0, flag_values=[]))
+                        sites[nid]["calls"] += 1
+                        if flagged:
+                            sites[nid]["flag_values"].append(short(twz_active, 80))
+                    if not twz_active:
+                        n = twz_unpack_to or unp
+                        return None if not n else tuple(None for _ in range(n))
+                    if sites is not None:
+                        sites[nid]["active"] += 1
+                        sites[nid]["args"] = (a, dict(k))
+                    return fn(*a, **k)
+
+                return site
+
+            env["%s_s%d" % (prog["name"], st["site"])] = mk()
+    for iname, ip in prog["inner"].items():
+        ienv = build_ref(ip, plain, strip_flags, sites, prefix + iname + ".")
+        inner_fn = ienv[iname]
+        dead = G.dead_value(ip)
+
+        def mkd(inner_fn=inner_fn, dead=dead, ip=ip, prefix2=prefix + iname + "."):
+            def call(*a, twz_active=True):
+                if not twz_active:
+                    if sites is not None:
+                        sites.setdefault("dag:" + prefix2, dict(flagged=True, calls=0, active=0, dead=True, keyed=keyed_outputs(ip), flag_values=[]))
+                    return dead
+                return inner_fn(*a)
+
+            return call
+
+        env[iname] = mkd()
+    exec(compile(G.render(prog, strip_flags), "<%s>" % prog["name"], "exec"), env)  # noqa: S102
+    return env
+
+
+def keyed_outputs(prog):
+    """Does a (transitively) returned value of this DAG reach into a node result through a key path (index / unpacked
+    element)? Used only to classify the known finding 'deactivated nested DAG output indexes into None'."""
+    unpacked = set()
+    dagvars = {}
+    for st in prog["stmts"]:
+        if st["op"] == "call" and prog["fns"][st["fn"]]["unpack_to"]:
+            unpacked.update(st["t"])
+        if st["op"] == "dag":
+            for t in st["t"]:
+                dagvars[t] = st["name"]
+    kind, items = prog["ret"]
+    exprs = list(items.values()) if isinstance(items, dict) else list(items)
+    for e in exprs:
+        base = e.split("[")[0]
+        if base in unpacked:
+            return True
+        if base in dagvars:
+            if keyed_outputs(prog["inner"][dagvars[base]]):
+                return True
+            continue
+        if "[" in e:
+            return True
+    return False
+
+
+def all_fns(prog, acc=None):
+    acc = {} if acc is None else acc
+    acc.update(prog["fns"])
+    for ip in prog["inner"].values():
+        all_fns(ip, acc)
+    return acc
+
+
+def build_twz(prog, plain, cfg, strip_flags=False, top=True):
+    """tawazi environment: xn(...) per function, dag(...) per (inner) program."""
+    from tawazi import Resource, and_, dag, not_, or_, xn
+
+    env = {"and_": and_, "or_": or_, "not_": not_}
+    via_config = cfg.get("attrs_via") != "decorator"
+    xns = {}
+    for name, fs in prog["fns"].items():
+        kw = dict(resource=Resource(fs["resource"]))
+        if fs["unpack_to"]:
+            kw["unpack_to"] = fs["unpack_to"]
+        if not via_config or not top:
+            kw.update(priority=fs["priority"], is_sequential=fs["is_sequential"])
+        xns[name] = xn(**kw)(plain[name])
+    for st in prog["stmts"]:
+        if st["op"] == "call":
+            env["%s_s%d" % (prog["name"], st["site"])] = xns[st["fn"]]
+    for iname, ip in prog["inner"].items():
+        env[iname] = build_twz(ip, plain, cfg, strip_flags, top=False)
+    exec(compile(G.render(prog, strip_flags), "<%s>" % prog["name"], "exec"), env)  # noqa: S102
+    if not top:
+        return dag(max_concurrency=cfg.get("inner_mc", 1))(env[prog["name"]])
+    d = dag(max_concurrency=cfg["mc"] if cfg.get("mc_via") == "decorator" else 1, is_async=cfg["is_async"])(env[prog["name"]])
+    conf = {}
+    if cfg.get("mc_via") != "decorator":
+        conf["max_concurrency"] = cfg["mc"]
+    if via_config:
+        lids = G.local_ids(prog)
+        nodes = {}
+        for st in prog["stmts"]:
+            if st["op"] == "call":
+                fs = prog["fns"][st["fn"]]
+                nodes[lids[st["site"]]] = {"priority": fs["priority"], "is_sequential": fs["is_sequential"]}
+        if nodes:
+            conf["nodes"] = nodes
+    if conf:
+        how = cfg.get("attrs_via", "dict")
+        if how == "yaml":
+            import yaml
+
+            fd, p = tempfile.mkstemp(suffix=".yaml")
+            with os.fdopen(fd, "w") as f:
+                yaml.safe_dump(conf, f)
+            try:
+                d.config_from_yaml(p)
+            finally:
+                os.unlink(p)
+        elif how == "json":
+            fd, p = tempfile.mkstemp(suffix=".json")
+            with os.fdopen(fd, "w") as f:
+                json.dump(conf, f)
+            try:
+                d.config_from_json(p)
+            finally:
+                os.unlink(p)
+        else:
+            d.config_from_dict(conf)
+    return d
+
+
+def mkplain(prog):
+    return {n: probes.mkprobe(n, shape=tuple(fs["shape"]) if fs["shape"] else None) for n, fs in all_fns(prog).items()}
+
+
+def gen_cfg(rng):
+    return dict(
+        mc=rng.randint(1, 4), is_async=rng.random() < 0.35, attrs_via=rng.choice(["decorator", "decorator", "dict", "yaml", "json"]),
+        mc_via=rng.choice(["decorator", "config"]), controlled=rng.random() < 0.6,
+    )
+
+
+def gen_args(rng, prog, nonce):
+    nreq = len(prog["params"]) - len(prog["defaults"])
+    na = rng.randint(nreq, len(prog["params"]))
+    return [Sym("arg", nonce, i) if rng.random() < 0.7 else rng.choice(G.CONSTS + G.FALSY_TRUTHY) for i in range(na)]
+
+
+def run_twz(d, args, cfg):
+    from tawazi import AsyncDAG
+
+    B.reset_log()
+    probes.reset_counts()
+    B.Settings.controlled = bool(cfg.get("controlled"))
+    B.Settings.step_limit = 10 * len(d.exec_nodes) + 20
+    try:
+        if isinstance(d, AsyncDAG):
+            async def main():
+                return await d(*args)
+
+            res = probes.run_op("await", lambda: asyncio.run(main()))
+        else:
+            res = probes.run_op("call", lambda: d(*args))
+    finally:
+        B.Settings.controlled = False
+        B.Settings.step_limit = 0
+    return res, B.snapshot()
+
+
+def compare(col, pid, prog, cfg, args, sites, ref, res, log, rp, clauses):
+    """Differential oracle. Returns True when a disagreement was found."""
+    bad = False
+    if ref[0] == "exc":
+        col.counters["ref_raised_skipped"] += 1
+        return False
+    if res[0] == "exc":
+        e = res[1]
+        mech = "tawazi_raised_but_plain_python_returns"
+        if (type(e).__name__ in ("AttributeError", "TypeError") and "NoneType" in str(e) and ("__getitem__" in str(e) or "subscriptable" in str(e))
+                and any(k.startswith("dag:") and s_.get("keyed") for k, s_ in sites.items())):
+            mech = "deactivated_nested_dag_output_with_key_path_raises"
+        col.violation(pid, mech, dict(
+            exc=type(e).__name__, msg=str(e)[:300], cause=repr(e.__cause__)[:200], args=short(args), source="\n".join(G.all_sources(prog))), rp)
+        return True
+    col.counters["value_comparisons"] += 1
+    if not same(ref[1], res[1]):
+        col.violation(pid, "returned_value_differs_from_plain_python", dict(
+            expected=short(ref[1], 400), got=short(res[1], 400), args=short(args), source="\n".join(G.all_sources(prog))), rp)
+        bad = True
+    rc, tc = dict(probes.State.ref_counts), dict(probes.State.counts)
+    if rc != tc:
+        col.violation(pid, "executed_functions_differ_from_plain_python", dict(
+            expected_calls=rc, tawazi_calls=tc, args=short(args), source="\n".join(G.all_sources(prog))), rp)
+        bad = True
+    if clauses:
+        entered = Counter(e["node"] for e in log if e["kind"] == "FENTER")
+        fargs = {e["node"]: (e["args"], e["kwargs"]) for e in log if e["kind"] == "FENTER"}
+        for nid, s in sites.items():
+            if s["calls"] != 1:
+                continue
+            if s["flagged"]:
+                col.counters["c10_flagged_sites"] += 1
+                col.counters["c10_flag_truthy" if s["active"] else "c10_flag_falsy"] += 1
+            exp = s["active"]
+            got = entered.get(nid, 0)
+            if got != exp and s["flagged"]:
+                mech = "flagged_call_ran_although_flag_falsy" if got > exp else "flagged_call_skipped_although_flag_truthy"
+                col.violation(pid, mech, dict(node=nid, flag_value=s["flag_values"], entered=got, args=short(args),
+                                              source="\n".join(G.all_sources(prog))), rp)
+                bad = True
+            elif got == 1 and exp == 1 and "args" in s:
+                col.counters["c10_dependent_arg_checks"] += 1
+                ea, ek = s["args"]
+                ga, gk = fargs[nid]
+                if not (same(tuple(ea), tuple(ga)) and same(dict(ek), dict(gk))):
+                    col.violation(pid, "call_site_received_wrong_values", dict(node=nid, expected=short((ea, ek)), got=short((ga, gk)),
+                                                                               source="\n".join(G.all_sources(prog))), rp)
+                    bad = True
+    return bad
+
+
+def one_program(col, pid, rng, feats, depth, pidx, reps=3, clauses=True, flavours=None):
+    g = G.Gen(rng, feats)
+    prog = g.program(depth, "p%d" % pidx)
+    plain = mkplain(prog)
+    cfg = gen_cfg(rng)
+    if flavours == "sync":
+        cfg["is_async"] = False
+    rp = {"kind": "diff_case", "prog": prog, "cfg": cfg, "feats": feats, "sources": G.all_sources(prog)}
+    try:
+        d = build_twz(prog, plain, cfg)
+    except BaseException as e:  # noqa: BLE001
+        col.counters["build_error:%s" % type(e).__name__] += 1
+        col.violation(pid, "build_of_in_fragment_program_failed", dict(exc=repr(e)[:300], source="\n".join(G.all_sources(prog))), rp)
+        return
+    col.counters["programs"] += 1
+    nsites = sum(1 for st in prog["stmts"] if st["op"] in ("call", "dag"))
+    for rep in range(reps):
+        args = gen_args(rng, prog, (pidx << 8) | rep)
+        sites = {}
+        renv = build_ref(prog, plain, sites=sites)
+        probes.reset_counts()
+        ref = probes.run_ref(lambda: renv[prog["name"]](*args))
+        rcounts = Counter(probes.State.ref_counts)
+        res, log = run_twz(d, args, cfg)
+        probes.State.ref_counts = rcounts
+        col.evaluations += 1
+        rp2 = dict(rp, args=jsonable(args), rep=rep)
+        bad = compare(col, pid, prog, cfg, args, sites, ref, res, log, rp2, clauses)
+        if ref[0] == "ok" and nsites >= 2:
+            order = tuple((e["kind"][1], e["node"]) for e in log if e["kind"] in ("FENTER", "FEXIT"))
+            col.hashes.add("%08x%08x" % (zlib.crc32("\n".join(G.all_sources(prog)).encode()), zlib.crc32(repr((order, short(args), cfg["mc"], cfg["is_async"])).encode())))
+        if not bad and col.evaluations % 40 == 1:
+            col.sample(dict(source="\n".join(G.all_sources(prog)), args=short(args), cfg=cfg, value=short(res[1] if res[0] == "ok" else res, 300),
+                            executed=dict(probes.State.counts)))
+        for e in log:
+            if e["kind"] in ("SPIN", "DEADLOCK", "BYPASS"):
+                col.counters["event_" + e["kind"]] += 1
+                if e["kind"] == "BYPASS":
+                    col.inconclusive.append("controller bypassed: %s" % e.get("why"))
+
+
+@job("diff")
+def job_diff(j):
+    rng = random.Random(j["seed"])
+    col = Collector()
+    for pidx in range(j["n_programs"]):
+        one_program(col, j["pid"], rng, j["feats"], j.get("depth", 0), pidx, reps=j.get("reps", 3), clauses=j.get("clauses", True),
+                    flavours=j.get("flavours"))
+    return col.result()
+
+
+def _replay_diff(j, rp):
+    col = Collector(max_per_mech=20)
+    prog, cfg = rp["prog"], rp["cfg"]
+    plain = mkplain(prog)
+    pid = j.get("pid") or rp.get("pid") or "C01"
+    rng = random.Random(1)
+    for attempt in range(4):
+        d = build_twz(prog, plain, cfg)
+        args = gen_args(rng, prog, attempt)
+        sites = {}
+        renv = build_ref(prog, plain, sites=sites)
+        probes.reset_counts()
+        ref = probes.run_ref(lambda: renv[prog["name"]](*args))
+        rcounts = Counter(probes.State.ref_counts)
+        res, log = run_twz(d, args, cfg)
+        probes.State.ref_counts = rcounts
+        col.evaluations += 1
+        for p in ("C01", "C10", "C17", "C20"):
+            compare(col, p, prog, cfg, args, sites, ref, res, log, rp, True)
+    return col.result()
+
+
+REGISTRY["replay:diff_case"] = _replay_diff
